@@ -385,6 +385,14 @@ def step (s : St) (w : List String) : St × String :=
     let t2 := applyTo t1 ops
     let (t3, root) := rootHash Hh t2
     ({ s with t := t3, croot := root, cweight := t3.weight }, s!"ok r={hex root} w={t3.weight} {fmtEntry ops}")
+  | ["commit2", lvl] =>
+    -- Commit(lvl), a second Commit(lvl) on the clean root, then both batches in call order
+    let (t1, ops) := commit Hh s.t lvl.toInt!
+    let (t1b, ops2) := commit Hh t1 lvl.toInt!
+    let t2 := applyTo (applyTo t1b ops) ops2
+    let (t3, root) := rootHash Hh t2
+    ({ s with t := t3, croot := root, cweight := t3.weight },
+     s!"ok r={hex root} w={t3.weight} {fmtEntry ops} | {fmtEntry ops2}")
   | ["gc"] =>
     let (t', ops) := deleteNodes s.t
     ({ s with t := t' }, "ok " ++ fmtEntries (if ops.isEmpty then [] else [ops]))
